@@ -45,6 +45,11 @@ def t_r12_and_cut_from():
         assert 'let z = k + n;' in tail and 'into_iter' not in tail, gen
         f0 = [f for f in meta['functions'] if f['name'] == 'f'][0]
         assert f0['rules'].get('R12') == 1, f0
+        # R12b: only the closure is replaced, the other arguments stay
+        open(os.path.join(d, 'src', 'b.rs'), 'w').write('fn g(v: Vec<u8>) -> bool {\n    v.iter().fold(false, |acc, x| { acc || *x > (1) })\n}\n')
+        open(tpl, 'w').write('verus! {\n//@lift name=g file=src/b.rs fn=g\n//@ carg "|acc, x|" => "&v"\n//@ spec\n    ensures true,\n//@end\n}\n')
+        gen, meta = lift.build_unit(tpl, d)
+        assert '.fold(false, &v)' in gen, gen
     finally:
         shutil.rmtree(d)
 
